@@ -5,7 +5,7 @@
    Statuses: [v_st] is the job status in the controller's cache (what it acts
    upon), [w_st] the one on the API server. *)
 From Coq Require Import ZArith List Bool.
-From V Require Import C05.Model C05.Laws C05.Lemmas.
+From V Require Import C05.Model C05.Laws C05.Lemmas C05.SyncLemmas C05.Partition.
 Import ListNotations.
 Open Scope Z_scope.
 
@@ -117,6 +117,30 @@ Theorem C05_sync_counters_prefix_refuted :
 Proof. exact sync_counters_prefix_refuted. Qed.
 Print Assumptions C05_sync_counters_prefix_refuted.
 
+(* counters, positive part (syncJob path, code after the two fixes): a successful
+   reconcile with an admitted PodGroup and a fresh pod view writes / leaves on the
+   API server counters that partition exactly the pods that exist there:
+   terminating = pods being deleted (incl. the ones this sync deleted), all
+   others by their phase -- for every spec with unique task names, every pod set
+   owned by the spec's tasks, every status update function *)
+Theorem C05_counters_partition_sync : forall w u w' wr,
+  sync_job w u [] = (w', false, wr) ->
+  pg_admitted (v_pg w) = true -> st_phase (v_st w) <> PhNone ->
+  v_pods w = w_pods w -> v_st w = w_st w ->
+  NoDup (map t_name (s_tasks (v_spec w))) -> NoDup (pod_ids (w_pods w)) ->
+  (forall p, In p (w_pods w) -> exists k, In k (s_tasks (v_spec w)) /\ t_name k = p_task p) ->
+  (st_cnt (w_st w'), st_term (w_st w')) = tally (w_pods w').
+Proof. exact counters_partition_sync. Qed.
+Print Assumptions C05_counters_partition_sync.
+
+Theorem C05_sync_counters_partition : forall sp P,
+  NoDup (map t_name (s_tasks sp)) -> NoDup (pod_ids P) ->
+  (forall p, In p P -> exists k, In k (s_tasks sp) /\ t_name k = p_task p) ->
+  let a := sync_pods sp P P [] in
+  a_err a = false /\ (a_cnt a, a_term a) = tally (a_pods a).
+Proof. exact sync_counters_partition. Qed.
+Print Assumptions C05_sync_counters_partition.
+
 (* non-vacuity *)
 Example C05_fixed_on_f2_witness :
   exists w', step_req f2_world sync_req [] = (w', false, true) /\
@@ -141,3 +165,14 @@ Example C05_nonvacuous_fault :
   exists w', step_req w sync_req [FCreate 1 0] = (w', true, true) /\
              w_st w' = init_status one_task_spec (v_st w) /\ w_pods w' = [].
 Proof. exact fault_nonvacuous. Qed.
+
+Example C05_nonvacuous_counters_partition_sync :
+  let sp := mkSpec [mkTask 1 2 (Some 1) [] None; mkTask 2 1 None [] None] 2 None 3 [] in
+  let pods := [mkPod 1 0 PSucceeded false false; mkPod 1 1 PRunning false true; mkPod 1 2 PRunning false false;
+               mkPod 2 0 PFailed true false] in
+  let w := init_world sp (mkStatus PhRunning 0 0 2 c0 0 [] false false) pods (Some PgRunning) in
+  NoDup (map t_name (s_tasks sp)) /\ NoDup (pod_ids pods) /\
+  (forall p, In p pods -> exists k, In k (s_tasks sp) /\ t_name k = p_task p) /\
+  exists w', sync_job w URunningSync [] = (w', false, true) /\
+             st_cnt (w_st w') = mkC 0 0 1 0 0 /\ st_term (w_st w') = 3 /\ length (w_pods w') = 4%nat.
+Proof. exact counters_partition_sync_nonvacuous. Qed.
